@@ -17,7 +17,7 @@
       step; the rest of the pipeline (relabelling in sort_nodes_by_attr, hydrogens) is decided per run by
       the generated search, clause (b) of EzCheck.prop_fail. *)
 From Coq Require Import String.
-From Coq Require Import List Ascii ZArith Bool.
+From Coq Require Import List Ascii ZArith Bool Lia.
 From CGV Require Import Base.PyBase Base.PyVal Base.NxGraph Resolve.GraphOps
      Stereo.EzImpl Stereo.EzDefs Stereo.EzWitness Stereo.EzProofs.
 Import ListNotations.
@@ -72,6 +72,28 @@ Theorem C15_class_exact : forall p p', pair_wf p -> pair_wf p' -> same_substitue
   pair_in_class p = true -> pair_in_class p' = false -> pair_result p <> pair_result p'.
 Proof. exact class_exact. Qed.
 
+(** renumbering: a renaming of the keys that keeps node order and adjacency order (so every edge is still
+    enumerated from the same end) and is monotone on every (neighbour, node) pair yields the same pairs,
+    renamed, and the same classes.  PARTIAL: renumberings that re-insert nodes/edges in another order or
+    move a ligand to the other side of its anchor are not covered - C15_order_refuted lives there. *)
+Theorem C15_ez_renumber_invariant_partial : forall f, injective f -> forall g ez ps,
+  mono_adj g f -> all_pairs g ez = Ok ps ->
+  all_pairs (rename_graph f g) (rename_ez f ez) = Ok (map (rename_pair f) ps) /\
+  forall p, In p ps -> pair_result (rename_pair f p) = pair_result p.
+Proof. exact ez_renumber_invariant_partial. Qed.
+Example C15_renumber_nonvacuous :
+  let f := fun k => 2 * k + 10 in
+  injective f /\ mono_adj w_AB f /\
+  exists ps, all_pairs w_AB (ez_class_dict w_AB) = Ok ps /\ length ps = 1%nat /\
+             all_pairs (rename_graph f w_AB) (rename_ez f (ez_class_dict w_AB)) = Ok (map (rename_pair f) ps).
+Proof.
+  cbv zeta. split; [intros x y E; lia|]. split.
+  - intros n w d In1 In2. cbn in In1.
+    repeat (destruct In1 as [<-|In1]; [cbn in In2; repeat (destruct In2 as [[= <- <-]|In2]; [split; reflexivity|]); contradiction|]).
+    contradiction.
+  - eexists. split; [vm_compute; reflexivity|]. split; vm_compute; reflexivity.
+Qed.
+
 (** chirality label: attribute copy of merge_graphs, and the annotation step *)
 Theorem C15_chiral_stays_merge : forall off fo a a', merge_node off fo a = Ok a' ->
   aget (S "chiral") a' = aget (S "chiral") a.
@@ -121,6 +143,7 @@ Print Assumptions C15_refs_ok_preserved.
 Print Assumptions C15_ez_symmetric.
 Print Assumptions C15_ez_class_table.
 Print Assumptions C15_class_iff_wrong.
+Print Assumptions C15_ez_renumber_invariant_partial.
 Print Assumptions C15_order_refuted.
 Print Assumptions C15_order_partial.
 Print Assumptions C15_class_exact.
